@@ -89,7 +89,7 @@ Definition shim_check (c : hdr) (hs : list hdr) : shim_res :=
   end.
 
 (** ** sync State *)
-Inductive serr := SEGetter | SEEmpty | SEFirst | SENonAdj.
+Inductive serr := SEGetter | SEEmpty | SEFirst | SENonAdj | SEStore.   (* SEStore: the underlying Store.Append failed *)
 Record sstate := SState { ss_id : N; ss_from : N; ss_to : N; ss_err : option serr }.
 
 (** answer of getter.GetRangeByHeight *)
@@ -401,7 +401,9 @@ Fixpoint t_run (fuel : nat) (gate : bool) (i : nat) (c : cfg) : cfg :=
 
     Since 40dc6a8 syncStore.Append holds a mutex from loading its head to the
     return of Store.Append: with respect to other Appends (the sync loop's and
-    every learner call's) it is atomic.  [astep] is [step] with the three
+    every learner call's) it is atomic.  (Inside, since f604e5b: check, write,
+    then head := - the order does not show while the lock is held, except when
+    the write fails: [l_fail] / [t_fail] below.)  [astep] is [step] with the three
     program counters of an Append (check / head := / Store.Append) taken in one
     go.  Every run of [astep] is a run of [step] ([arun_run], Proofs/SyncerLiveP.v):
     what is proved for every schedule of the finer machine holds for this one. *)
@@ -441,6 +443,33 @@ Definition astep (c : cfg) (e : event) : cfg :=
   end.
 
 Definition arun (c : cfg) (es : list event) : cfg := fold_left astep es c.
+
+(** *** a Store.Append that fails
+
+    Since /repo f604e5b syncStore.Append checks the list, calls the underlying
+    Store.Append and moves its head only when that succeeded: a failed write
+    (store.Append fails when its write queue is full and the caller's context
+    ends, or the store stops) changes nothing.  The sync loop's attempt ends
+    with the error; setLocalHead logs it and goes on to its already-synced
+    check (the header, not stored, then goes to pending and is synced later). *)
+Definition l_fail (c : cfg) : cfg :=
+  match c_loop c with LApp0 _ _ => l_finish (Some SEStore) c | _ => c end.
+
+Definition t_fail (i : nat) (c : cfg) : cfg :=
+  match nth_error (c_thr c) i with
+  | Some (TRun mu res x SL0 rest) => set_thr i (TRun mu res x SL3 rest) c
+  | _ => c
+  end.
+
+Inductive xevent :=
+| XE (e : event)      (* a step of [astep] *)
+| XLF                 (* the sync loop's Append: the store write fails *)
+| XTF (i : nat).      (* learner call i's Append: the store write fails *)
+
+Definition xstep (c : cfg) (x : xevent) : cfg :=
+  match x with XE e => astep c e | XLF => l_fail c | XTF i => t_fail i c end.
+
+Definition xrun (c : cfg) (xs : list xevent) : cfg := fold_left xstep xs c.
 
 Fixpoint l_arun (fuel : nat) (c : cfg) : cfg :=
   match fuel with
